@@ -106,6 +106,24 @@ var condCache = map[[2]*ssa.BasicBlock]int8{}
 
 // condFromPred: the value of b's branch condition when b is entered from p, if the φ-inputs of that
 // edge decide it.
+// nonNegative: an unsigned value, an unsigned value widened into a signed type, a length.
+func nonNegative(v ssa.Value) bool {
+	if _, sg, ok := widthOf(v.Type()); ok && !sg {
+		return true
+	}
+	switch x := v.(type) {
+	case *ssa.Convert:
+		fb, fs, ok1 := widthOf(x.X.Type())
+		tb, _, ok2 := widthOf(x.Type())
+		return ok1 && ok2 && !fs && fb < tb
+	case *ssa.Call:
+		if b, ok := x.Call.Value.(*ssa.Builtin); ok && (b.Name() == "len" || b.Name() == "cap") {
+			return true
+		}
+	}
+	return false
+}
+
 func condFromPred(fn *ssa.Function, b, p *ssa.BasicBlock) (bool, bool) {
 	ck := [2]*ssa.BasicBlock{b, p}
 	if c, ok := condCache[ck]; ok {
@@ -176,6 +194,23 @@ func condFromPred(fn *ssa.Function, b, p *ssa.BasicBlock) (bool, bool) {
 					case token.NEQ:
 						return a != c, true
 					}
+				}
+			}
+			// 0 against a value that cannot be negative
+			if a, okA := intFromPred(x.X, b, pi, 0); okA && a == 0 && nonNegative(subst(x.Y)) {
+				switch x.Op {
+				case token.LEQ:
+					return true, true // 0 <= u
+				case token.GTR:
+					return false, true // 0 > u
+				}
+			}
+			if c, okC := intFromPred(x.Y, b, pi, 0); okC && c == 0 && nonNegative(subst(x.X)) {
+				switch x.Op {
+				case token.GEQ:
+					return true, true // u >= 0
+				case token.LSS:
+					return false, true // u < 0
 				}
 			}
 			if x.Op != token.EQL && x.Op != token.NEQ {
